@@ -694,16 +694,23 @@ impl Datamodel for ECMAScriptDatamodel {
                 match r.get_type() {
                     Type::Object => {
                         let obj = r.as_object().unwrap();
-                        // Iterate through all members
-                        let ob = obj.borrow();
-                        let p = ob.properties();
+                        // W3C: iterate over a shallow copy of the collection. The body may modify
+                        // the collection itself, so the object must not stay borrowed meanwhile.
+                        let items: Vec<Option<JsValue>> = {
+                            let ob = obj.borrow();
+                            ob.properties()
+                                .index_property_values()
+                                // Skip the last "length" element
+                                .filter(|item_prop| item_prop.enumerable().is_some() && item_prop.enumerable().unwrap())
+                                .map(|item_prop| item_prop.value().cloned())
+                                .collect()
+                        };
                         let mut idx: i64 = 0;
 
                         if self.assign_internal(item_name, "null", true) {
-                            for item_prop in p.index_property_values() {
-                                // Skip the last "length" element
-                                if item_prop.enumerable().is_some() && item_prop.enumerable().unwrap() {
-                                    match item_prop.value() {
+                            for item_opt in &items {
+                                {
+                                    match item_opt {
                                         Some(item) => {
                                             #[cfg(feature = "Debug")]
                                             debug!("ForEach: #{} {}={:?}", idx, item_name, item);
